@@ -408,6 +408,25 @@ def run(only=None):
                 probes.append((f"{name}.check_and_correct", lambda cls=cls, c=c, n=n: (lambda r: (bool(r[0]), to_int(r[1])))(cls.check_and_correct(int2ba(c ^ (1 << (n // 2)), n)))))
                 probes.append((f"{name}.correct_numpy_array", lambda cls=cls, c=c, n=n: to_int(cls.correct_numpy_array(numpy.array([int(b) for b in format(c ^ 2, f"0{n}b")])))))
     hist.poisoned_histories(s, funcs, bad_args, probes)
+    # valid calls of the public matrix helpers with *other people's* matrices of the same shapes as the library's (a textbook generator,
+    # an all-ones parity part): the seven codes must not be affected
+    import okdmr.dmrlib.etsi.fec.fec_utils as _fu
+    foreign = {}
+    for name in LIB:
+        n, k, d, g, ext = gf2.CODES[name]
+        ident = numpy.identity(k, dtype=int)
+        foreign[f"generator_{k}x{n}_ones"] = (lambda ident=ident, n=n, k=k: numpy.concatenate([ident, numpy.ones((k, n - k), dtype=int)], axis=1))
+        foreign[f"generator_{k}x{n}_shifted"] = (lambda ident=ident, n=n, k=k: numpy.concatenate([ident, numpy.roll(numpy.eye(k, n - k, dtype=int), 1, axis=1)], axis=1))
+    helper_funcs = {}
+    for hn in ("derive_parity_check_matrix_from_generator",):
+        if hasattr(_fu, hn):
+            helper_funcs[f"fec_utils.{hn}"] = getattr(_fu, hn)
+    if hasattr(_fu, "get_syndrome_for_word"):
+        helper_funcs["fec_utils.get_syndrome_for_word(with the foreign matrix as H)"] = lambda G: _fu.get_syndrome_for_word(numpy.zeros(G.shape[0], dtype=int), G.T)
+    if helper_funcs:
+        decl_before = s.declared
+        hist.poisoned_histories(s, helper_funcs, list(foreign.items()), probes)
+        s.declared = (decl_before or 0) + len(helper_funcs) * len(foreign) if not s.viol else None
     s.done()
     s = rep.sub("kept_results", "generate() of all 2^k messages of each code with every returned word kept by the caller until the last call: each is still "
                                 "the codeword of its own message; check_and_correct outputs of all single errors of one codeword kept likewise")
